@@ -379,15 +379,15 @@ def _analyze_command(
             name = sets_execution_var(words[position])
             if name:
                 decisions.append(Decision("ask", f"sets {name}"))
-        if not parts and (
-            position < base_idx
-            or _names_variable(base, words, position, base_idx)
-        ):
+        if position < base_idx or _names_variable(base, words, position, base_idx):
             # a variable name, or the value kept in a variable: arithmetic
             # evaluates both, and runs a quoted substitution in a subscript
-            decisions.extend(
-                _analyze_string_cmdsubs(word_value, config, cwd, remote=remote)
-            )
+            if not parts:
+                decisions.extend(
+                    _analyze_string_cmdsubs(word_value, config, cwd, remote=remote)
+                )
+            elif _has_inert_opener(word_value):
+                decisions.append(Decision("ask", "complex substitution"))
         # Check if this is a pure cmdsub (entire word is just a cmdsub)
         is_pure_cmdsub = (
             len(parts) == 1
@@ -877,10 +877,16 @@ def _analyze_word_parts(
         else:
             # Parameter, arithmetic, array, ... expansion: generic descent
             decisions.extend(_analyze_expansion(part, config, cwd, remote=remote))
-    if not parts and scan_raw:
+    if scan_raw:
         value = getattr(word, "value", None)
         if isinstance(value, str):
-            decisions.extend(_analyze_string_cmdsubs(value, config, cwd, remote=remote))
+            if not parts:
+                decisions.extend(
+                    _analyze_string_cmdsubs(value, config, cwd, remote=remote)
+                )
+            elif _has_inert_opener(value):
+                # parsed expansions next to a quoted one: "a[\$(cmd)]$x"
+                decisions.append(Decision("ask", "complex substitution"))
     return decisions
 
 
@@ -992,6 +998,31 @@ def _analyze_string_cmdsubs(
         else:
             i += 1
     return decisions
+
+
+def _has_inert_opener(text: str) -> bool:
+    """True if text holds a "$(" or a backtick that quoting keeps from running now
+    (inside single quotes, or after a backslash) - it runs when the text is
+    evaluated again."""
+    i, n = 0, len(text)
+    in_single = in_double = False
+    while i < n:
+        c = text[i]
+        if in_single:
+            if c == "'":
+                in_single = False
+            elif c == "`" or (c == "$" and text[i + 1 : i + 2] == "("):
+                return True
+        elif c == "\\":
+            if text[i + 1 : i + 2] == "`" or text[i + 1 : i + 3] == "$(":
+                return True
+            i += 1
+        elif c == "'" and not in_double:
+            in_single = True
+        elif c == '"':
+            in_double = not in_double
+        i += 1
+    return False
 
 
 def _count_openers(text: str) -> int:
